@@ -187,13 +187,18 @@ func (s *KeyStore) ListKeyRings() (rings []string, err error) {
 		}
 	}()
 
-	rings, err = s.fs.ListAll()
+	paths, err := s.fs.ListAll()
 	if err != nil {
 		s.log.WithError(err).Debug("failed to list key rings")
 		return nil, err
 	}
-	for i := range rings {
-		rings[i] = strings.TrimSuffix(rings[i], keyringSuffix)
+	rings = make([]string, 0, len(paths))
+	for _, path := range paths {
+		// only key ring files: leftovers of interrupted writes (".keyring.new") are not key rings
+		if !strings.HasSuffix(path, keyringSuffix) {
+			continue
+		}
+		rings = append(rings, strings.TrimSuffix(path, keyringSuffix))
 	}
 	return rings, nil
 }
